@@ -67,6 +67,11 @@ Print Assumptions C39_commute_partial.
    an actor ends by ACTOR_EXIT with no request left unwaited (ActorImpl::cleanup_from_self cancelling pending comms is
    not modelled); TestAny/WaitAny are not steps of the model (their verdict is the one of the comm they wrap). *)
 
+(* the side conditions of C39_commute_partial are invariants of the extended kernel *)
+Theorem C39_xwf_invariant : forall s t, xwf s -> xenabled s t = true -> xwf (xstep s t).
+Proof. exact xwf_step. Qed.
+Print Assumptions C39_xwf_invariant.
+
 (* the excluded region is really one where the declared independence is wrong: barrier of 2, actor 3 waiting, actors 1 and
    2 arrive: whoever comes first leaves with 3, the other one is left waiting *)
 Theorem C39_barrier_lock_lock_refuted : exists x a1 a2,
@@ -101,7 +106,8 @@ Proof.
   change (Nat.ltb (ty {| ty := T_COMM_ASYNC_SEND; aid := 2; o1 := cid 2 (CN (xstep c39_s1 (XC 1 (CTest 0))) 2); o2 := 0; snd_ := -1; rcv_ := -1; tmo := false |}) T_COMM_TEST) with true.
   cbv iota. cbn [ty]. change (lut_get dep_table T_COMM_ASYNC_SEND T_COMM_TEST) with EVAL_COMM_SEND_TEST.
   cbn [eval o1 o2]. change (CN (xstep c39_s1 (XC 1 (CTest 0))) 2) with 0.
-  change (rmb (RQ c39_s1 1 0)) with 0. rewrite He, Z.eqb_refl. reflexivity.
+  change (o2 (comm_core cid T_COMM_TEST c39_s1 1 0)) with 0. change (o1 (comm_core cid T_COMM_TEST c39_s1 1 0)) with (cid 1 0).
+  rewrite He, !Z.eqb_refl. reflexivity.
 Qed.
 Print Assumptions C39_pinned_test_rule_refuted.
 
@@ -122,10 +128,10 @@ Proof.
       + intros m kd b j. cbn. unfold upd. destruct (Z.eqb_spec m 0); cbn; [|tauto].
         intros [H|[]]. inversion H; subst. cbn. unfold upd2. cbn. split; [lia|reflexivity].
       + intros m. exists false. cbn. unfold upd. destruct (m =? 0); cbn; [|tauto]. intros e [H|[]]. subst. reflexivity. }
-  repeat split; try (vm_compute; reflexivity).
-  - intros a k b j Hne. split.
+  split; [vm_compute; reflexivity|]. split; [vm_compute; reflexivity|]. split.
+  { intros a k b j Hne. split.
     + intros ->. congruence.
     + cbn. unfold upd2. cbn.
-      repeat match goal with |- context [if ?c then _ else _] => destruct c; cbn end; discriminate.
-  - exact I.
+      repeat match goal with |- context [if ?c then _ else _] => destruct c; cbn end; discriminate. }
+  split; [vm_compute; reflexivity|]. split; [exact I|vm_compute; reflexivity].
 Qed.
